@@ -97,7 +97,7 @@ type rootAt struct {
 }
 
 type stats struct {
-	prefixes, removes, segRemoves, snapRemoves, ntRemoves, secondWriter, openReaders, reopens int
+	prefixes, removes, segRemoves, snapRemoves, ntRemoves, secondWriter, openReaders, reopens, openRaced int
 	ntKeys                                                                                 []string
 }
 
@@ -278,8 +278,21 @@ func prop(c Case, st *stats) (fail *vlib.Failure) {
 			})
 			var r2 *bluge.Reader
 			var err error
-			if f := vlib.Watchdog("OpenReader", vlib.CallBound, func() *vlib.Failure { r2, err = bluge.OpenReader(cfg); return nil }); f != nil {
-				return f
+			// OpenReader lists the snapshots and then loads the newest one: when clean-up removes it
+			// in between (retention 1) the open fails although the directory was never without a
+			// loadable snapshot.  The property promises nothing for a reader that is still being
+			// opened, so a failed open is repeated (and counted); only a persistent failure is judged.
+			for attempt := 0; attempt < 4; attempt++ {
+				if f := vlib.Watchdog("OpenReader", vlib.CallBound, func() *vlib.Failure { r2, err = bluge.OpenReader(cfg); return nil }); f != nil {
+					return f
+				}
+				if err == nil {
+					break
+				}
+				st.openRaced++
+				if op, cl, dbl := d2.OpenHandles(); op != cl || dbl != 0 {
+					return vlib.Failf("reader-handle-leak", "%s: failed read-only open (err=%v) loaded %d items, closed %d once, %d more than once", site, err, op, cl, dbl)
+				}
 			}
 			if err == nil {
 				var o *vlib.Obs
@@ -512,6 +525,7 @@ func TestC11Trace(t *testing.T) {
 		ev.AddExtra("second_writer_attempts", st.secondWriter)
 		ev.AddExtra("readonly_opens_while_writer_runs", st.openReaders)
 		ev.AddExtra("reopens", st.reopens)
+		ev.AddExtra("readonly_opens_that_raced_cleanup_and_were_repeated", st.openRaced)
 		if len(c.Steps) <= 8 {
 			ev.Sample(map[string]interface{}{"case": c, "prefixes": st.prefixes, "removes": st.removes}, st.ntRemoves > 0)
 		}
